@@ -19,6 +19,7 @@ mod c16;
 mod c17;
 mod c18;
 mod c19;
+mod clients;
 #[path = "../../common/ctx.rs"]
 mod ctx;
 mod explore;
